@@ -40,6 +40,7 @@ static struct {
 	int hard_error_injected, cleanup_before_cancelled, peer_hangs_up, peer_hung_up;
 	int conv;                                   // dispatch_read / dispatch_write instead of a channel
 	int derived, base_cleanup_count; dispatch_io_t base;   // channel made with dispatch_io_create_with_io from one that is closed at once
+	int rederived, base_ready; off_t base_pos;   // file runs: random-access channel derived from one that was created at another descriptor position (round 11, C14k)
 } X;
 
 extern void _dispatch_iocntl(uint32_t param, uint64_t value);   // private tuning knobs of the I/O subsystem (io.c)
@@ -212,6 +213,7 @@ static bool io_done(void *c) {
 	return true;
 }
 static bool io_cleaned(void *c) { (void)c; return X.cleanup_count > 0; }
+static bool base_is_ready(void *c) { (void)c; return X.base_ready != 0; }
 
 static void judge(void) {
 	unsigned char *log; size_t nlog = sim_io_log(X.fd, &log);
@@ -550,6 +552,8 @@ static void c14_file_run(void) {
 		size_t off = (size_t)slice * sl + g_n((uint32_t)(sl / 2)), len = 1 + g_n((uint32_t)(sl - (off - (size_t)slice * sl) - 1));
 		op->off = (off_t)off; op->len = len; slice++;
 	}
+	X.rederived = !X.by_path && g_chance(1, 3); X.base_ready = 0; X.base_cleanup_count = 0;
+	X.base_pos = X.rederived ? (off_t)g_range(1, (int)X.file_size) : 0;
 	h_sample("%s (%zu bytes, opened by %s); handlers on a %s queue%s\n", chn[X.kind], X.file_size, X.by_path ? "path" : "descriptor", X.hq_serial ? "serial" : "global", Y.on ? "; a second channel on another file of the same device reads and writes meanwhile" : "");
 	for (int i = 0; i < X.nops; i++) if (op_on(X.ops[i].idx)) { ioop *op = &X.ops[i]; h_sample(" #%d %s", op->idx, ion[op->kind]); if (op->kind == IO_READ || op->kind == IO_WRITE) h_sample("(off %ld, len %zu)", (long)op->off, op->len); h_sample("\n"); }
 	h_announce();
@@ -564,6 +568,19 @@ static void c14_file_run(void) {
 	if (X.by_path) {
 		char path[64]; snprintf(path, sizeof path, "/proc/self/fd/%d", X.fd);
 		X.ch = dispatch_io_create_with_path(DISPATCH_IO_RANDOM, path, O_RDWR, 0, X.hq, cleanup);
+	} else if (X.rederived) {
+		// offsets of a derived random-access channel are relative to the descriptor's position when it is derived, not to
+		// the position its parent recorded: the parent is created at base_pos, the descriptor is rewound once the parent is set up
+		h_log("the channel is derived from a random-access channel created at descriptor position %ld; the descriptor is rewound before", (long)X.base_pos);
+		lseek(chfd, X.base_pos, SEEK_SET);
+		X.base = dispatch_io_create(DISPATCH_IO_RANDOM, chfd, X.hq, ^(int error) { (void)error; X.base_cleanup_count++; h_log("cleanup handler of the parent channel"); h_progress(); });
+		if (!X.base) h_viol("create", "dispatch_io_create failed");
+		dispatch_io_barrier(X.base, ^{ X.base_ready = 1; h_progress(); });
+		if (h_wait_until(base_is_ready, NULL, LIVENESS_NS)) h_stuck("never-done", "the barrier of a freshly created channel never ran");
+		lseek(chfd, 0, SEEK_SET);
+		X.ch = dispatch_io_create_with_io(DISPATCH_IO_RANDOM, X.base, X.hq, cleanup);
+		if (!X.ch) h_viol("create", "dispatch_io_create_with_io failed");
+		dispatch_io_close(X.base, 0); dispatch_release(X.base);
 	} else X.ch = dispatch_io_create(DISPATCH_IO_RANDOM, chfd, X.hq, cleanup);
 	if (!X.ch) h_viol("create", "dispatch_io_create failed");
 	if (Y.on) bystander_start();
@@ -627,6 +644,10 @@ static void c14_file_run(void) {
 		if ((op->kind == IO_READ || op->kind == IO_WRITE) && op->done_count != 1) h_viol("done-count", "%s #%d saw done %d times", ion[op->kind], op->idx, op->done_count);
 	}
 	if (X.cleanup_count != 1) h_viol("cleanup-count", "the cleanup handler ran %d times", X.cleanup_count);
+	if (X.rederived) {
+		uint64_t t0 = sim_now(); while (!X.base_cleanup_count && sim_now() - t0 < LIVENESS_NS) sim_sleep_ns(20 * MSEC);
+		if (X.base_cleanup_count != 1) h_viol("cleanup-count", "the cleanup handler of the parent of the channel made with dispatch_io_create_with_io ran %d times", X.base_cleanup_count);
+	}
 	if (!hard) file_compare("at the end");
 	if (known_clause[0]) h_viol(known_clause, "%s", known_msg);
 	RES.counters[0] = X.nops; RES.counters[2] = sim_io_ncalls; RES.counters[3] = X.stop; RES.counters[4] = 1; RES.counters[7] = Y.on;
